@@ -34,12 +34,13 @@ type c07Cfg struct {
 	LatestExists  bool // the ControllerRevision of the latest parent state already exists
 	GenSel        bool
 	OwnCondition  bool // the hook returns its own `Updated` condition
+	EchoMeta      bool // read-modify-return hook: every desired child carries the uid and resourceVersion of the child it observed (and always has: the last-applied records contain them too)
 }
 
 type c07Child struct {
 	Assign  int // 0 unclaimed, 1..LatestVer = claimed by the revision of template version v<Assign>
 	Content int // 0 missing, k = exists with template version v<k>
-	Health  int // 0 healthy, 1 Ready=False, 2 no status, 3 stale observedGeneration, 4 Ready=True with the wrong reason
+	Health  int // 0 healthy, 1 Ready=False, 2 no status, 3 stale observedGeneration, 4 Ready=True with the wrong reason, 5 healthy but pending deletion (held by a finalizer: deletion is not instantaneous)
 }
 
 type c07Case struct {
@@ -61,9 +62,9 @@ func c07StatusOK(checks, health int) bool {
 	case 1:
 		return health != 2
 	case 2:
-		return health == 0 || health == 3 || health == 4
+		return health == 0 || health == 3 || health == 4 || health == 5
 	default:
-		return health == 0 || health == 3
+		return health == 0 || health == 3 || health == 5
 	}
 }
 
@@ -134,22 +135,35 @@ func c07Run(c c07Case) []mc.Finding {
 		}
 		d := desired(i, ch.Content, "c1")
 		obj := &unstructured.Unstructured{Object: runtime.DeepCopyJSON(d)}
+		if cfg.EchoMeta {
+			kit.Field(d, fmt.Sprintf("uid-w%d", i), "metadata", "uid")
+			kit.Field(d, fmt.Sprint(900000+i), "metadata", "resourceVersion")
+			kit.Field(obj.Object, fmt.Sprintf("uid-w%d", i), "metadata", "uid")
+			kit.Field(obj.Object, fmt.Sprint(900000+i), "metadata", "resourceVersion")
+		}
 		if err := dynamicapply.SetLastApplied(obj, d); err != nil {
 			panic(err)
 		}
 		kit.Owners(obj.Object, kit.OwnerRef(kit.Thing, "p", "puid", true))
 		kit.Field(obj.Object, int64(2), "metadata", "generation")
 		switch ch.Health {
+		case 5:
+			obj.Object["status"] = kit.M{"observedGeneration": int64(2), "conditions": kit.L{kit.M{"type": "Initialized", "status": "True", "reason": "Good"}, kit.M{"type": "Ready", "status": "True", "reason": "Good"}}}
+			kit.Deleting(kit.Finalizers(obj.Object, "ex.io/hold"))
 		case 0:
-			obj.Object["status"] = kit.M{"observedGeneration": int64(2), "conditions": kit.L{kit.M{"type": "Ready", "status": "True", "reason": "Good"}}}
+			obj.Object["status"] = kit.M{"observedGeneration": int64(2), "conditions": kit.L{kit.M{"type": "Initialized", "status": "True", "reason": "Good"}, kit.M{"type": "Ready", "status": "True", "reason": "Good"}}}
 		case 1:
-			obj.Object["status"] = kit.M{"observedGeneration": int64(2), "conditions": kit.L{kit.M{"type": "Ready", "status": "False", "reason": "Good"}}}
+			obj.Object["status"] = kit.M{"observedGeneration": int64(2), "conditions": kit.L{kit.M{"type": "Initialized", "status": "True", "reason": "Good"}, kit.M{"type": "Ready", "status": "False", "reason": "Good"}}}
 		case 3:
-			obj.Object["status"] = kit.M{"observedGeneration": int64(1), "conditions": kit.L{kit.M{"type": "Ready", "status": "True", "reason": "Good"}}}
+			obj.Object["status"] = kit.M{"observedGeneration": int64(1), "conditions": kit.L{kit.M{"type": "Initialized", "status": "True", "reason": "Good"}, kit.M{"type": "Ready", "status": "True", "reason": "Good"}}}
 		case 4:
-			obj.Object["status"] = kit.M{"observedGeneration": int64(2), "conditions": kit.L{kit.M{"type": "Ready", "status": "True", "reason": "Bad"}}}
+			obj.Object["status"] = kit.M{"observedGeneration": int64(2), "conditions": kit.L{kit.M{"type": "Initialized", "status": "True", "reason": "Good"}, kit.M{"type": "Ready", "status": "True", "reason": "Bad"}}}
 		}
-		w.Sim.Seed(obj.Object)
+		if cfg.EchoMeta {
+			w.Sim.SeedVerbatim(obj.Object)
+		} else {
+			w.Sim.Seed(obj.Object)
+		}
 	}
 	if c.Ghost > 0 && c.GhostExists {
 		d := desired(0, c.Ghost, "c1")
@@ -159,7 +173,7 @@ func c07Run(c c07Case) []mc.Finding {
 			panic(err)
 		}
 		kit.Owners(obj.Object, kit.OwnerRef(kit.Thing, "p", "puid", true))
-		obj.Object["status"] = kit.M{"observedGeneration": int64(1), "conditions": kit.L{kit.M{"type": "Ready", "status": "True", "reason": "Good"}}}
+		obj.Object["status"] = kit.M{"observedGeneration": int64(1), "conditions": kit.L{kit.M{"type": "Initialized", "status": "True", "reason": "Good"}, kit.M{"type": "Ready", "status": "True", "reason": "Good"}}}
 		w.Sim.Seed(obj.Object)
 	}
 	// ControllerRevisions as the controller itself would have written them
@@ -210,6 +224,12 @@ func c07Run(c c07Case) []mc.Finding {
 			d := desired(i, int(v[1]-'0'), cm)
 			if cfg.GenSel {
 				delete(d["metadata"].(kit.M), "labels") // the controller adds the generated label itself
+			}
+			if cfg.EchoMeta {
+				if ob, ok := kit.Map(req, "children", hookKey(ck))[kit.Name(d)].(kit.M); ok {
+					kit.Field(d, kit.Get(ob, "metadata", "uid"), "metadata", "uid")
+					kit.Field(d, kit.Get(ob, "metadata", "resourceVersion"), "metadata", "resourceVersion")
+				}
 			}
 			ch = append(ch, d)
 		}
@@ -350,7 +370,7 @@ func c07Run(c c07Case) []mc.Finding {
 			av := after[name]
 			differs := ch.Content != av || (cfg.CommonChanged && (cfg.CustomPaths || av == L))
 			wantVerb := ""
-			if differs {
+			if differs && ch.Health != 5 { // a child pending deletion receives no write, whatever it looks like
 				wantVerb = "update"
 				if cfg.Method == "RollingRecreate" {
 					wantVerb = "delete"
@@ -426,7 +446,7 @@ func TestVerifC07(t *testing.T) {
 								continue // the hook's own condition is orthogonal: explored on one representative configuration slice
 							}
 							for n := 1; n <= maxN; n++ {
-								per := (latest + 1) * (latest + 1) * 5
+								per := (latest + 1) * (latest + 1) * 6
 								total := 1
 								for i := 0; i < n; i++ {
 									total *= per
@@ -448,7 +468,7 @@ func TestVerifC07(t *testing.T) {
 										if n == 3 && !mc.Thorough() {
 											skip = true
 										}
-										if n == 3 && (ch.Health == 2 || ch.Health == 4) {
+										if n == 3 && (ch.Health == 2 || ch.Health == 4 || ch.Health == 5) {
 											skip = true // n=3: health restricted to healthy / unhealthy / stale generation
 										}
 										c.Children = append(c.Children, ch)
@@ -466,6 +486,10 @@ func TestVerifC07(t *testing.T) {
 										r.Sample(c)
 									}
 									if checks == 0 && fp == 0 && !own && n <= 2 {
+										ce := c
+										ce.Cfg.EchoMeta = true
+										r.Case(ce, fmt.Sprint(idx)+"echo", func() []mc.Finding { return c07Run(ce) })
+										r.Outcome("echo:" + c07Outcome)
 										for g := 1; g < latest; g++ {
 											for _, ge := range []bool{false, true} {
 												cg := c
